@@ -223,3 +223,9 @@ Proof.
   destruct pton_ref_clean as [H4 H6]. split; [exact H4|]. split; [exact H6|].
   intros s rest flags r ad Hs Hr Had Hrc. exact (thm_addr_clean _ _ s rest flags H4 H6 Hs r Hr ad Had Hrc).
 Qed.
+
+Theorem thm_char_sign :
+  DV_CHAR_OK_ALT = DV_CHAR_OK /\ DV_LAST_OK_ALT = DV_LAST_OK /\ LP_UNQ_OK_ALT = LP_UNQ_OK
+  /\ LP_Q_OK_ALT = LP_Q_OK /\ LP_ESC_OK_ALT = LP_ESC_OK
+  /\ XT_RANGE_OK_ALT = XT_RANGE_OK /\ XT_HEX_OK_ALT = XT_HEX_OK /\ XT_PLAIN_OK_ALT = XT_PLAIN_OK.
+Proof. exact tables_sign_independent. Qed.
